@@ -34,7 +34,7 @@ bb6a35c+c4d33bf C08 C08.reposition
 ffad523+90d470c C05 C05.boundary
 a084387 C20 C20.result
 bb6a35c C08 C08.position
-9a87f9b+c15ed5e C08 C08.reset
+ebbf229+9a87f9b+c15ed5e C08 C08.reset
 8c82aca C10 C10.direction
 1da8b63 C09 C09.bounds
 cb78194 C12 C12.mergeconv
@@ -48,7 +48,7 @@ da81c69 C05 C05.order
 33f53b2 C01 C01.lazybuffer
 ffad523 C05 C05.boundary
 887f955 C08 C08.loopcond
-9a87f9b C08 C08.errexit
+ebbf229+9a87f9b C08 C08.errexit
 d7c8347 C18 C18.fileid
 4c9c370 C20 C20.retry
 508f87a C17 C17.reset
@@ -71,6 +71,7 @@ f53f4fe C17 C17.regrow
 6ed1442 C04 C04.viewstate
 35991d0 C04 C04.offsetsrc
 ebbf229 C08 C08.errexit
+75d9778 C18 C18.nilconfig
 50c76da C14 C14.chunkeof
 LIST
 git -C /repo worktree remove --force $WT
